@@ -149,7 +149,10 @@ def load_known(pid):
             l = l.strip()
             m = re.match(r"finding: property=(\S+) key=input-regex:(\S+) probe=(\{.*?\}) (.*)$", l)
             if m and m.group(1) == pid:
-                findings.append({"regex": m.group(2), "probe": json.loads(m.group(3)), "what": m.group(4)})
+                rx = m.group(2)
+                d0 = rx.endswith(";depth0-ok")
+                if d0: rx = rx[:-len(";depth0-ok")]
+                findings.append({"regex": rx, "depth0": d0, "probe": json.loads(m.group(3)), "what": m.group(4)})
             m = re.match(r"fixed: property=(\S+) (\S+) (.*)$", l)
             if m and m.group(1) == pid:
                 fixed.append({"commit": m.group(2), "what": m.group(3)})
@@ -310,6 +313,11 @@ def main():
             hit = None
             for f in findings:
                 if x.get("text") is not None and re.search(f["regex"], x["text"]):
+                    if f.get("depth0"):
+                        o2 = dict(x.get("opts") or {}); o2["max_stack_depth"] = 0
+                        r2 = eval_case((x["text"], tuple(x["ts"]) if x.get("ts") else None, {k: v for k, v in o2.items() if k in ("latent_time", "max_stack_depth", "relative_match_len")}))
+                        if r2.get("res") != x.get("expected"):
+                            continue
                     hit = f; break
             if hit: matched[hit["what"]] += 1
             else: rest.append(x)
